@@ -163,7 +163,7 @@ def check_c49(ctx):
     q = ctx.tier == "quick"
     defs, examples = doc_constants()
     runs = [{"KEYS": '{"a", "b"}', "MAXPAIRS": 3}] if q else \
-           [{"KEYS": '{"a", "b", "c"}', "MAXPAIRS": 3}, {"KEYS": '{"a", "b"}', "MAXPAIRS": 4}]
+           [{"KEYS": '{"a", "b", "c"}', "MAXPAIRS": 3}]
     cases = []
     seen = set()
     for r in runs:
@@ -394,7 +394,7 @@ def run_prison(ctx, cases, label=""):
     ctx.cov.setdefault("prison_events", {"decided": 0, "either_way": 0})
     ctx.cov["prison_events"]["decided"] += rep["decided"]
     ctx.cov["prison_events"]["either_way"] += rep["free"]
-    if tot and rep["decided"] * 4 < tot and len(cases) > 20:
+    if tot and rep["decided"] * 10 < tot and len(cases) > 20:
         raise vlib.MachineryError("only %d of %d recorded arrivals were decisive (machine too loaded for the real-time "
                                   "driver?)" % (rep["decided"], tot))
     if rep["drift"]:
@@ -414,9 +414,9 @@ def check_c53(ctx):
         ctx.cov["constants"]["Prison_MC(keys=%d,th=%d,slack=%d)" % (nk, th, s)] = d
         ctx.tlc_must_pass(SPEC, "Prison", "Prison_MC.cfg", defines=d, timeout=2400)
     cases = []
-    for th in (0, 1, 2):
+    for th in ((2,) if q else (0, 1, 2)):
         d = {"NKEYS": 2, "TH": th, "P": 3, "J": 2, "MAXT": 26, "MAXARR": 16}
-        g = ctx.tlc(SPEC, "GenPrison", "Prison_Gen.cfg", mode="sim", defines=d, sim_num=25 if q else 150,
+        g = ctx.tlc(SPEC, "GenPrison", "Prison_Gen.cfg", mode="sim", defines=d, sim_num=60 if q else 150,
                     sim_depth=60, count=False, timeout=600)
         if not g.ok or not g.cases:
             raise vlib.MachineryError("GenPrison failed: %s %s" % (g.error or g.violation, g.out[-500:]))
@@ -438,8 +438,7 @@ def check_c53(ctx):
                         "boundary are matched either way" % (WIDE_US, SLACK_US),
                         "scaled schedules set checkPeriodNs/stayPeriodNs through an overlay setter after the real loader "
                         "ran; the seconds->ns conversion is covered by the unscaled schedules"]
-    if ctx.tier != "quick" or True:
-        run_prison(ctx, cases, "C53")
+    run_prison(ctx, cases, "C53")
 
 
 # --------------------------------------------------------------------------- registry
